@@ -5,8 +5,8 @@
     golang/geo, tied to the Go code by the correspondence on every run); [s2_minInt]/[s2_maxInt]
     are translated from /repo on every run. *)
 From Coq Require Import ZArith List Bool.
-From Geo Require Import Base.GoPrim Gen.CellIDCov Model.Shapes Model.Index
-  Proofs.C06_Slices Proofs.C06_Prefix Proofs.C06_Shapes Proofs.C06_Polygons Proofs.C06_Index Proofs.C06_IndexOk Proofs.C06_CellRel.
+From Geo Require Import Base.GoPrim Gen.CellID Gen.CellIDCov Model.Shapes Model.Index
+  Proofs.C06_Slices Proofs.C06_Prefix Proofs.C06_Shapes Proofs.C06_Polygons Proofs.C06_Index Proofs.C06_IndexOk Proofs.C06_CellRel Proofs.C06_Descent.
 Import ListNotations.
 Local Open Scope Z_scope.
 
@@ -247,3 +247,26 @@ Theorem cell_relations_total :
   intersects_cell point crossing_sign vertex_crossing cell_center approx_meets s idx T <> None.
 Proof. exact Proofs.C06_CellRel.cell_relations_total. Qed.
 Print Assumptions cell_relations_total.
+
+(** * CrossingEdgeQuery.getCellsForEdge (Model/Index.v [cells_for_edge]: LocateCellID of the edge
+      root, computeCellsIntersected, clipVAxis, with the float clipping abstract): the visited cells
+      contain every index cell whose unpadded square the query edge meets, for any clipping that is
+      sound in the sense of [descent_sound] (H-CLIP for the query edge: a skipped child is not met,
+      bounds handed down stay correct). Tree facts from C11 (children tile the parent, laminarity). *)
+Theorem visited_cells_complete :
+  forall (B : Type) (left_only right_only lower_only upper_only : Z -> B -> bool)
+         (split_u split_v : Z -> B -> B * B) (child_ij : Z -> Z -> Z -> Z) (cells : list Z)
+         (meets : Z -> Prop) (I : Z -> B -> Prop) (Iu : Z -> Z -> B -> Prop),
+  descent_sound B left_only right_only lower_only upper_only split_u split_v child_ij meets I Iu ->
+  (forall c k, C11_Bits.valid c -> In k (s2_CellID_Children c) ->
+     exists i j, (i = 0 \/ i = 1) /\ (j = 0 \/ j = 1) /\ k = child_ij c i j) ->
+  (forall x d, C11_Bits.valid x -> C11_Bits.valid d -> C11_Cells.nested_in x d -> meets x -> meets d) ->
+  (forall k, 0 <= k < lenZ cells -> C11_Bits.valid (nthZ cells k 0)) ->
+  cells_ok cells ->
+  forall (segments : list (Z * B)) (k : Z),
+  0 <= k < lenZ cells -> meets (nthZ cells k 0) ->
+  (exists root b sr, In (root, b) segments /\ C11_Bits.cellform root sr /\ I root b /\
+     (C11_Cells.nested_in (nthZ cells k 0) root \/ C11_Cells.nested_in root (nthZ cells k 0))) ->
+  In k (cells_for_edge B left_only right_only lower_only upper_only split_u split_v child_ij cells segments).
+Proof. exact Proofs.C06_Descent.edge_complete. Qed.
+Print Assumptions visited_cells_complete.
